@@ -25,6 +25,19 @@ def generate(rng, tier):
         elif r < 0.2:
             c = c[:4] + [c[4] + [modent(path('e%d' % i, 'empty.x' if rng.random() < 0.5 else 'empty'), module())]] + c[5:]
         out.append(c)
+    out += hyphen_cases(rng, max(3, n // 60))
+    return out
+
+def hyphen_cases(rng, n):
+    """two files whose names differ only in `-` / `_` (`my-types.pyxis`, `my_types.pyxis`) are two modules with two output files"""
+    out = []
+    for i in range(n):
+        a = modent(path('my-types%d' % i), module(defs=[type_def(True, 'Alpha', [], [field(True, 'x', ty_id('u32'))])]))
+        b = modent(path('my_types%d' % i), module(defs=[type_def(True, 'Beta', [], [field(True, 'y', ty_id('u64'))])]))
+        c_ = modent(path('pkg', 'a-b'), module(defs=[type_def(True, 'Gamma', [], [field(True, 'z', ty_id('u16'))])]))
+        ents = [a, b] + ([c_] if i % 2 else [])
+        rng.shuffle(ents)
+        out.append(case('hyphen%d' % i, rng.choice([4, 8]), ents))
     return out
 
 def add_collision(rng, c):
